@@ -29,7 +29,7 @@ def q(name, disc, ns, nr, dmax, role="prove", mutate=None, opt="-O1", timeout=36
     d = {"DISC": disc, "NS": ns, "NR": nr, "DMAX": dmax}
     d.update(extra or {})
     k = ns * 8 + nr * 7 + 2
-    return Query(name, "c04.c", "h_mq", units=["librfn/messageq.c"], defines=d, unwind=unwind or max(ns, dmax, 3) + 3, unwindset="run_schedule.2:%d" % (k + 1),
+    return Query(name, "c04.c", "h_mq", units=["librfn/messageq.c"], defines=d, unwind=unwind or max(ns, dmax, 3) + 3, unwindset="run_schedule.0:%d" % (k + 1),
                  gen=GEN[opt], backend=backend, timeout=timeout, mem_gb=12, role=role, mutate=mutate, object_bits=12,
                  tolerate=[(r"arithmetic overflow on signed shl", "1 << slot in messageq (signed-shift class, see C10)")])
 
